@@ -22,7 +22,7 @@ hprop.install(globals(), hprop.HistoryProperty(
         "'the same step twice' is asserted for the step function on a saved state (StepSimulation.update), not for re-reading an input file: the file readers inside Update are cursors by design",
         "only code paths the histories execute are observed",
     ],
-    quick=(16, 70, 40), thorough=(16, 1500, 70), probes=True, retains=True,
+    quick=(16, 70, 40), thorough=(16, 800, 60), probes=True, retains=True,
     # plugs are throttled co-simulation style as well: two effective powers for one vehicle type exercise shared model tables
     instr_bias={"throttle": True, "rush": True},
 ))
